@@ -335,43 +335,10 @@ func (c *Ctx) renamedFuncWith(name string, known map[string]string) *types.Func 
 		return f
 	}
 	c.memo[key] = (*types.Func)(nil)
-	old, ok := loadAnchorFPs().Funcs[name]
-	if !ok {
-		return nil
+	cands := c.renameCands(name, known)
+	if os.Getenv("ELPS_DEBUG_RENAMES") != "" {
+		fmt.Fprintf(os.Stderr, "rename? %s: %v\n", name, cands)
 	}
-	cur := c.currentFingerprints()
-	canonList := func(xs []string) []string {
-		if len(known) == 0 {
-			return xs
-		}
-		out := make([]string, 0, len(xs))
-		for _, x := range xs {
-			if o, ok := known[x]; ok {
-				x = o
-			}
-			out = append(out, x)
-		}
-		return out
-	}
-	type cand struct {
-		name  string
-		score float64
-	}
-	var cands []cand
-	for cn, fp := range cur.Funcs {
-		if fp.Pkg != old.Pkg || fp.Recv != old.Recv || fp.Sig != old.Sig {
-			continue
-		}
-		if _, existed := loadAnchorFPs().Funcs[cn]; existed {
-			continue // that function existed under its own name on the audited tree
-		}
-		if _, taken := known[cn]; taken {
-			continue
-		}
-		s := (jaccard(old.Callees, canonList(fp.Callees)) + jaccard(old.Callers, canonList(fp.Callers))) / 2
-		cands = append(cands, cand{cn, s})
-	}
-	sort.Slice(cands, func(i, j int) bool { return cands[i].score > cands[j].score })
 	if len(cands) == 0 || cands[0].score < 0.5 {
 		return nil
 	}
@@ -401,6 +368,104 @@ func (c *Ctx) renamedFuncWith(name string, known map[string]string) *types.Func 
 		c.memo[key] = fn
 	}
 	return fn
+}
+
+type renameCand struct {
+	name  string
+	score float64
+}
+
+// renameCands ranks the functions of this tree that could be the audited function `name`
+// under a new name (same package, receiver and signature, not present on the audited tree)
+// by call-graph similarity.
+func (c *Ctx) renameCands(name string, known map[string]string) []renameCand {
+	old, ok := loadAnchorFPs().Funcs[name]
+	if !ok {
+		return nil
+	}
+	cur := c.currentFingerprints()
+	canonList := func(xs []string) []string {
+		if len(known) == 0 {
+			return xs
+		}
+		out := make([]string, 0, len(xs))
+		for _, x := range xs {
+			if o, ok := known[x]; ok {
+				x = o
+			}
+			out = append(out, x)
+		}
+		return out
+	}
+	var cands []renameCand
+	for cn, fp := range cur.Funcs {
+		if fp.Pkg != old.Pkg || fp.Sig != old.Sig {
+			continue
+		}
+		// the same receiver — or a method that never used its receiver turned into a plain
+		// function (or the reverse)
+		if fp.Recv != old.Recv && fp.Recv != "" && old.Recv != "" {
+			continue
+		}
+		if _, existed := loadAnchorFPs().Funcs[cn]; existed {
+			continue // that function existed under its own name on the audited tree
+		}
+		if _, taken := known[cn]; taken {
+			continue
+		}
+		s := (jaccard(old.Callees, canonList(fp.Callees)) + jaccard(old.Callers, canonList(fp.Callers))) / 2
+		// renamed AND split: helpers extracted from the function did not exist on the
+		// audited tree; read through them (their callees are the function's callees, the
+		// function calling itself through them is still calling itself)
+		if s < 0.9 {
+			through := func(xs []string, next func(fp funcFP) []string) []string {
+				set := map[string]bool{}
+				seen := map[string]bool{}
+				var visit func(x string, depth int)
+				visit = func(x string, depth int) {
+					if x == "·self" || x == cn {
+						set["·self"] = true
+						return
+					}
+					nfp, isCur := cur.Funcs[x]
+					_, existed := loadAnchorFPs().Funcs[x]
+					_, isKnown := known[x]
+					if isCur && !existed && !isKnown && depth < 4 && nfp.Pkg == fp.Pkg {
+						if !seen[x] {
+							seen[x] = true
+							for _, y := range next(nfp) {
+								visit(y, depth+1)
+							}
+						}
+						return
+					}
+					set[x] = true
+				}
+				for _, x := range xs {
+					visit(x, 0)
+				}
+				var out []string
+				for k := range set {
+					out = append(out, k)
+				}
+				sort.Strings(out)
+				return out
+			}
+			ce := through(fp.Callees, func(f funcFP) []string { return f.Callees })
+			cr := through(fp.Callers, func(f funcFP) []string { return f.Callers })
+			if s2 := (jaccard(old.Callees, canonList(ce)) + jaccard(old.Callers, canonList(cr))) / 2; s2 > s {
+				s = s2
+			}
+		}
+		cands = append(cands, renameCand{cn, s})
+	}
+	sort.Slice(cands, func(i, j int) bool {
+		if cands[i].score != cands[j].score {
+			return cands[i].score > cands[j].score
+		}
+		return cands[i].name < cands[j].name
+	})
+	return cands
 }
 
 // renamedField: likewise for an unexported struct field "pkg.Type.field".
@@ -567,6 +632,72 @@ func (c *Ctx) computeRenames() {
 			}
 			if r := c.renamedFuncWith(a, canon); r != nil {
 				canon[funcNameRaw(r)] = a
+				added = true
+			}
+		}
+		if !added {
+			break
+		}
+	}
+	// a cluster of functions that call each other and were all renamed: none is recognisable
+	// by neighbours that changed their names too.  Pair each missing function with its best
+	// candidate provisionally, then score every pairing with the others assumed; keep the
+	// pairings that then reach the usual threshold.
+	for round := 0; round < 3; round++ {
+		tentative := map[string]string{}
+		takenOld := map[string]bool{}
+		for _, o := range canon {
+			takenOld[o] = true
+		}
+		for _, a := range missing {
+			if takenOld[a] {
+				continue
+			}
+			cs := c.renameCands(a, canon)
+			if len(cs) == 0 || cs[0].score <= 0 {
+				continue
+			}
+			best := cs[0]
+			if len(cs) > 1 && cs[1].score > cs[0].score-0.05 {
+				// spelling breaks near ties
+				short := func(n string) string { return n[strings.LastIndex(n, ".")+1:] }
+				bi, bs, second := -1, -1.0, -1.0
+				for i, cd := range cs {
+					if cd.score > cs[0].score-0.05 {
+						r := lcsRatio(short(a), short(cd.name))
+						if r > bs {
+							second, bs, bi = bs, r, i
+						} else if r > second {
+							second = r
+						}
+					}
+				}
+				if bi < 0 || second > bs-0.1 {
+					continue
+				}
+				best = cs[bi]
+			}
+			if _, dup := tentative[best.name]; dup {
+				continue
+			}
+			tentative[best.name] = a
+		}
+		if len(tentative) == 0 {
+			break
+		}
+		added := false
+		for cn, a := range tentative {
+			assumed := map[string]string{}
+			for k, v := range canon {
+				assumed[k] = v
+			}
+			for k, v := range tentative {
+				if k != cn {
+					assumed[k] = v
+				}
+			}
+			if r := c.renamedFuncWith(a, assumed); r != nil && funcNameRaw(r) == cn {
+				canon[cn] = a
 				added = true
 			}
 		}
